@@ -80,7 +80,29 @@ func (tr *Trans) ret(fr *Frame, x *ssa.Return) {
 			if len(props) == 0 {
 				props = tr.contract.Tags
 			}
-			tr.cur.assert(te.E, tr.ob("post", anchor, x.Pos(), cl.Src, props))
+			tr.cur.assert(te.E, tr.restrict(tr.ob("post", anchor, x.Pos(), cl.Src, props), cl))
+		}
+		if len(tr.contract.AtReturn) > 0 {
+			// clauses over the locals as they are at this return (a local declared further down has its zero value)
+			ps := tr.pointScope(fr, x.Pos())
+			tr.zeroLaterLocals(ps, fr, x.Pos())
+			for k, v := range sc.vars {
+				if strings.HasPrefix(k, "result") {
+					ps.vars[k] = v
+				}
+			}
+			for _, cl := range tr.contract.AtReturn {
+				te, err := ps.elab(cl.E)
+				if err != nil {
+					tr.eng.fatal("%s:%d: atreturn %q: %v", tr.contract.File, cl.Line, cl.Src, err)
+					continue
+				}
+				props := cl.Tags
+				if len(props) == 0 {
+					props = tr.contract.Tags
+				}
+				tr.cur.assert(te.E, tr.restrict(tr.ob("atreturn", cl.Name, x.Pos(), cl.Src, props), cl))
+			}
 		}
 	}
 	tr.cur.assume("false")
@@ -426,9 +448,9 @@ func (tr *Trans) callScope(ct *Contract, fn *ssa.Function, args []*Val) *Scope {
 			srt := tr.sortOf(et).Sort
 			switch {
 			case b.K == VAddr && b.Addr.K == RCell && len(b.Addr.Path) == 0:
-				sc.vars[fv.Name()] = TExpr{E: cur(b.Addr.Var), Sort: srt, GoT: et}
+				sc.vars[fv.Name()] = TExpr{E: cur(b.Addr.Var), Sort: srt, GoT: et, Var: b.Addr.Var}
 			case b.K == VExpr:
-				if _, isStruct := et.Underlying().(*types.Struct); isStruct && strings.HasPrefix(srt, "S_") {
+				if _, isStruct := et.Underlying().(*types.Struct); isStruct && (strings.HasPrefix(srt, "S_") || tr.eng.isOpaque(et)) {
 					sc.vars[fv.Name()] = TExpr{E: b.E, Sort: "Int", GoT: fv.Type()}
 				} else {
 					comp, csrt := tr.eng.sorts.cellComp(et)
@@ -592,6 +614,7 @@ func (tr *Trans) applyFrame(ct *Contract, fn *ssa.Function, sc *Scope, args []*V
 	}
 	var locs []loc
 	var coarse []string
+	var capturedVars []*MVar
 	var pointees []int
 	snap := func(e, sort string) string {
 		c := tr.freshConst("loc", sort)
@@ -638,8 +661,18 @@ func (tr *Trans) applyFrame(ct *Contract, fn *ssa.Function, sc *Scope, args []*V
 				locs = append(locs, loc{comp: comp, ref: ref, guard: guard})
 			}
 		default:
-			coarse = append(coarse, m)
+			if te, ok := sc.vars[m]; ok && te.Cell != nil {
+				// a captured variable of a contracted closure, living in a heap cell
+				locs = append(locs, loc{comp: te.Cell.Comp, ref: snap(te.Cell.Ref, "Int"), guard: "true"})
+			} else if ok && te.Var != nil {
+				capturedVars = append(capturedVars, te.Var)
+			} else {
+				coarse = append(coarse, m)
+			}
 		}
+	}
+	for _, v := range capturedVars {
+		tr.cur.havoc(v)
 	}
 	// pass 2: frame checks of the caller, then havoc
 	for _, i := range pointees {
@@ -978,10 +1011,32 @@ func (tr *Trans) appendBuiltin(fr *Frame, res ssa.Value, c *ssa.CallCommon, args
 	}
 	q := tr.freshName("i")
 	ssel := tr.sel(comp, srt, "(s_arr "+s+")")
-	tr.cur.assume(fmt.Sprintf("(forall ((%s Int)) (! (=> (and (<= 0 %s) (< %s (s_len %s))) (= (select %s %s) (select %s %s))) :pattern ((select %s %s))))",
-		q, q, q, s, arr, q, ssel, q, arr, q))
+	if strings.Contains(ssel, "(ite ") {
+		// one ite-free copy fact per heap (old / current), each also triggered by a read of the source array
+		hv := tr.heapVar(comp, srt)
+		sarr := "(s_arr " + s + ")"
+		for _, alt := range [][2]string{
+			{fmt.Sprintf("(> %s epoch)", sarr), fmt.Sprintf("(select %s %s)", cur(hv), sarr)},
+			{fmt.Sprintf("(<= %s epoch)", sarr), fmt.Sprintf("(select %s %s)", heapOldName(tr.il, comp, srt), sarr)},
+		} {
+			tr.cur.assume(fmt.Sprintf("(=> %s (forall ((%s Int)) (! (=> (and (<= 0 %s) (< %s (s_len %s))) (= (select %s %s) (select %s %s))) :pattern ((select %s %s)) :pattern ((select %s %s)))))",
+				alt[0], q, q, q, s, arr, q, alt[1], q, arr, q, alt[1], q))
+		}
+	} else {
+		tr.cur.assume(fmt.Sprintf("(forall ((%s Int)) (! (=> (and (<= 0 %s) (< %s (s_len %s))) (= (select %s %s) (select %s %s))) :pattern ((select %s %s)) :pattern ((select %s %s))))",
+			q, q, q, s, arr, q, ssel, q, arr, q, ssel, q))
+	}
 	tr.upd(comp, srt, r, arr)
 	tr.define(fr, res, fmt.Sprintf("(mk_slice %s (+ (s_len %s) %s))", r, s, elen))
+}
+
+// restrict: a clause that says "uses a,b" is proved from those labelled invariants only.
+func (tr *Trans) restrict(ob *Obligation, cl *Clause) *Obligation {
+	if cl.HasUses {
+		ob.Restrict = true
+		ob.Uses = cl.Uses
+	}
+	return ob
 }
 
 // rejectAt: the function is about to build an error whose message starts with a prefix that the contract
@@ -1012,6 +1067,30 @@ func (tr *Trans) rejectAt(fr *Frame, format string, pos token.Pos) {
 			props = ct.Tags
 		}
 		tr.cur.assert(te.E, tr.ob("reject", strings.TrimSuffix(cl.Name, ":"), pos, cl.Src, props))
+	}
+}
+
+// zeroLaterLocals binds the locals of fr's function that are declared after pos to their zero values.
+func (tr *Trans) zeroLaterLocals(sc *Scope, fr *Frame, pos token.Pos) {
+	for name, refs := range tr.localVar {
+		if _, ok := sc.vars[name]; ok {
+			continue
+		}
+		var best *localRef
+		for _, r := range refs {
+			if r.frame != fr || r.pos <= pos {
+				continue
+			}
+			if best == nil || r.pos < best.pos {
+				best = r
+			}
+		}
+		if best == nil {
+			continue
+		}
+		t := best.addr.valueType()
+		si := tr.sortOf(t)
+		sc.vars[name] = TExpr{E: si.Zero, Sort: si.Sort, GoT: t}
 	}
 }
 
